@@ -24,19 +24,19 @@ H("k6_store", src="k_codec.c", tus=["storage"], flags=CAD + ["--unwind", "33"], 
 H("k6_load", src="k_codec.c", tus=["storage"], flags=CAD + ["--unwind", "33"], cap=120, rss=1.0)
 
 API_TUS = ["polyseed", "gf", "storage", "features", "dependency"]
-H("k7_keygen", src="k_api.c", tus=API_TUS, flags=CAD + ["--unwind", "65"], cap=180, rss=1.5)
-H("k7_inject", src="k_api.c", tus=API_TUS, flags=CAD + ["--unwind", "65"], cap=180, rss=1.5)
-H("k8_crypt", src="k_api.c", tus=API_TUS, flags=CAD + ["--unwind", "65"], cap=300, rss=2.0)
-H("k9_create", src="k_api.c", tus=API_TUS, flags=CAD + ["--unwind", "65"], cap=180, rss=1.5)
-H("p7_load", src="k_api.c", tus=API_TUS, flags=CAD + ["--unwind", "65"], cap=180, rss=1.5)
-H("p7_store", src="k_api.c", tus=API_TUS, flags=CAD + ["--unwind", "65"], cap=180, rss=1.5)
-H("h_free", src="k_api.c", tus=API_TUS, flags=CAD + ["--unwind", "65"], cap=120, rss=1.0)
-H("h_inject", src="k_api.c", tus=API_TUS, flags=CAD + ["--unwind", "65"], cap=120, rss=1.0)
+H("k7_keygen", src="k_api.c", tus=API_TUS, c16=True, flags=CAD + ["--unwind", "65"], cap=180, rss=1.5)
+H("k7_inject", src="k_api.c", tus=API_TUS, c16=True, flags=CAD + ["--unwind", "65"], cap=180, rss=1.5)
+H("k8_crypt", src="k_api.c", tus=API_TUS, c16=True, flags=CAD + ["--unwind", "65"], cap=300, rss=2.0)
+H("k9_create", src="k_api.c", tus=API_TUS, c16=True, flags=CAD + ["--unwind", "65"], cap=180, rss=1.5)
+H("p7_load", src="k_api.c", tus=API_TUS, c16=True, flags=CAD + ["--unwind", "65"], cap=180, rss=1.5)
+H("p7_store", src="k_api.c", tus=API_TUS, c16=True, flags=CAD + ["--unwind", "65"], cap=180, rss=1.5)
+H("h_free", src="k_api.c", tus=API_TUS, c16=True, flags=CAD + ["--unwind", "65"], cap=120, rss=1.0)
+H("h_inject", src="k_api.c", tus=API_TUS, c16=True, flags=CAD + ["--unwind", "65"], cap=120, rss=1.0)
 
 P5_STRIP = {"polyseed": ["__CPROVER_file_local_polyseed_c_str_split",
                         "__CPROVER_file_local_dependency_h_utf8_nfkd_lazy"]}
 for n in ("p5_decode", "p5_decode_explicit"):
-    H(n, src="p_decode.c", tus=API_TUS, strip=P5_STRIP, flags=CAD + ["--unwind", "65"], cap=240, rss=2.0)
+    H(n, src="p_decode.c", tus=API_TUS, strip=P5_STRIP, c16=True, flags=CAD + ["--unwind", "65"], cap=240, rss=2.0)
 
 # T1 / T3-lemma: unwind = longest string + a few (skip loops are bounded by it)
 for n in ("t1_accept", "t1_safety", "t1_comparer", "t3_lemma"):
@@ -46,19 +46,20 @@ H("t2_search", src="t_search.c", tus=["lang"], extra=["stubs/bsearch.c"], flags=
 
 P6_STRIP = {"lang": ["__CPROVER_file_local_lang_c_lang_search"]}
 for n in ("p6_auto", "p6_wipe"):
-    H(n, src="p_lang.c", tus=["lang", "dependency"], strip=P6_STRIP, flags=CAD + ["--unwind", "17"], cap=300, rss=3.0)
+    H(n, src="p_lang.c", tus=["lang", "dependency"], strip=P6_STRIP, c16=True, flags=CAD + ["--unwind", "17"], cap=300, rss=3.0)
 
 H("p1_write", src="p_str.c", tus=["polyseed", "dependency"], flags=CAD + ["--unwind", "98"], cap=120, rss=1.0)
 H("p3_lazy", src="p_str.c", tus=["dependency"], defs=["DEP_STR_MAX=1"], flags=CAD, cap=300, rss=2.0)
 H("p4_split", src="p_str.c", tus=["polyseed", "dependency"], flags=CAD, cap=600, rss=3.0)
 
-for n in ("t4_table", "t4_distinct", "t4_selffind"):
-    H(n, src="t_table.c", tus=["lang"], extra=["stubs/bsearch.c"], langdata=True,
+for n in ("t4_table", "t4_distinct", "t4_selffind", "t4_meta"):
+    # concrete table walks without any assumption: no vacuity twin needed
+    H(n, src="t_table.c", tus=["lang"], extra=["stubs/bsearch.c"], langdata=True, nowitness=True,
       flags=CAD + ["--unwind", "2050", "--object-bits", "14"], cap=600, rss=4.0)
 
 P2_STRIP = {"polyseed": ["__CPROVER_file_local_polyseed_c_write_str"]}
-H("p2_layout", src="p_encode.c", tus=API_TUS, strip=P2_STRIP, flags=CAD + ["--unwind", "2050", "--object-bits", "12"], cap=600, rss=6.0)
-H("c17_len", src="p_encode.c", tus=API_TUS, strip=P2_STRIP, langdata=True, flags=CAD + ["--unwind", "2050", "--object-bits", "12"], cap=900, rss=8.0)
+H("p2_layout", src="p_encode.c", tus=API_TUS, strip=P2_STRIP, c16=True, flags=CAD + ["--unwind", "2050", "--object-bits", "12"], cap=600, rss=6.0)
+H("c17_len", src="p_encode.c", tus=API_TUS, strip=P2_STRIP, langdata=True, c16=True, flags=CAD + ["--unwind", "2050", "--object-bits", "12"], cap=900, rss=8.0)
 
 H("v_vectors", src="v_vectors.c", tus=API_TUS + ["lang", "lang_en"], extra=["stubs/bsearch.c"],
   flags=CAD + ["--unwind", "2050", "--object-bits", "13", "--max-field-sensitivity-array-size", "600"], cap=600, rss=3.0)
@@ -211,6 +212,10 @@ def g_t4(langs=LANGS, cfgs=("s",), selffind=False):
     return out
 
 
+def g_t4_meta(langs=LANGS):
+    return [I("t4_meta", defs=["LID=" + l, "GOLD_HEADER=<words_%s.h>" % l], tus=["lang", "lang_" + l], cap=300, rss=1.0) for l in langs]
+
+
 def g_c17(langs):
     return [I("c17_len", defs=["LID=" + l], cap=1200, rss=5.5) for l in langs]
 
@@ -242,7 +247,7 @@ def P(pid, instances, **kw):
 P("C01", lambda t: g_k2()[1:3] + g_k3() + g_p1() + [I("p2_layout")] + g_p3(t) + g_p4(t) + g_p5() + g_p6()
   + g_t1(t) + g_t2(t) + g_t3_lemma(t) + g_t4())
 P("C02", lambda t: g_k2() + g_p5() + [I("p7_load")] + g_t3_lemma(t) + g_t4())
-P("C03", lambda t: g_k2()[1:2] + g_k3() + g_p1() + [I("p2_layout")] + g_t4())
+P("C03", lambda t: g_k2()[1:2] + g_k3() + g_p1() + [I("p2_layout")] + g_t4_meta() + (g_t4() if t == "thorough" else []))
 P("C04", lambda t: [I("k7_keygen"), I("k7_inject"), I("k8_crypt"), I("k9_create"), I("p7_load")] + g_p5())
 P("C05", lambda t: [I("k2_coin"), I("k2_eval"), I("p2_layout")] + g_p5())
 P("C06", lambda t: [I("k6_store"), I("k6_load"), I("p7_load"), I("p7_store")])
